@@ -269,7 +269,7 @@ def gen_dataset(rng, nmax=7, mmax=5, family=None, kind=None, allow_empty=True, n
     if family is None:
         family = rng.choice(["uniform", "uniform", "near", "sparse", "blocky", "dup", "complete"])
     if kind is None:
-        kind = rng.choice(["int", "int", "int_sparse", "collision", "str", "str_digit"])
+        kind = rng.choice(["int", "int", "int_sparse", "collision", "str", "str_digit", "str_mixed"])
     n = rng.randint(nmin, nmax)
     m = rng.randint(1, mmax)
     elems = name_elements(rng, n, kind)
